@@ -834,6 +834,666 @@ theorem c10_server_close_idempotent (s : Srv) :
                           tsClosed := true, dbOpen := false, dbFile := false } := by
   simp [serverClose]
 
+
+/-! ### `Server.Start` / `Server.Close`: the token on `closeitChannel` -/
+
+/-- what holds of the hand-shake in every reachable state of the code as it is -/
+structure HsInv (s : Hs) : Prop where
+  st  : s.isStarted = true → s.start = .flagged ∨ s.start = .waiting
+  snd : ∀ j, s.closers[j]? = some .sending → s.lock = some j ∧ s.isStarted = true
+  unl : ∀ j, s.closers[j]? = some .unlock → s.lock = some j
+  lk  : ∀ j, s.lock = some j → s.closers[j]? = some .sending ∨ s.closers[j]? = some .unlock
+  sh  : s.shutdowns ≤ 1 ∧ (s.shutdowns = 1 ↔ s.start = .returned)
+
+theorem hs_inv_init : HsInv {} := by
+  refine ⟨by simp, by simp, by simp, by simp, by simp⟩
+
+theorem hs_inv_step {s s' : Hs} {a : HsAct} (h : HsInv s) (hs : hsStep true s a = some s') : HsInv s' := by
+  obtain ⟨h1, h2, h3, h4, h5⟩ := h
+  cases a with
+  | startCall =>
+    simp only [hsStep] at hs
+    split at hs
+    · cases hs
+      refine ⟨?_, h2, h3, h4, ?_⟩
+      · intro hst; have := h1 hst; grind
+      · grind
+    · cases hs
+  | startFlag =>
+    simp only [hsStep] at hs
+    split at hs
+    · cases hs
+      refine ⟨by simp, ?_, h3, h4, by grind⟩
+      intro j hj; have := h2 j hj; grind
+    · cases hs
+  | startWait =>
+    simp only [hsStep] at hs
+    split at hs
+    · cases hs
+      exact ⟨by simp, h2, h3, h4, by grind⟩
+    · cases hs
+  | closeCall =>
+    simp only [hsStep] at hs
+    cases hs
+    refine ⟨h1, ?_, ?_, ?_, h5⟩
+    · intro j hj
+      have : s.closers[j]? = some .sending := by grind
+      exact h2 j this
+    · intro j hj
+      have : s.closers[j]? = some .unlock := by grind
+      exact h3 j this
+    · intro j hj
+      have := h4 j hj
+      grind
+  | closeLock j =>
+    simp only [hsStep] at hs
+    split at hs
+    · rename_i hc
+      split at hs
+      · rename_i hst
+        cases hs
+        refine ⟨h1, ?_, ?_, ?_, h5⟩
+        · intro k hk
+          by_cases hkj : j = k
+          · subst hkj; simp [hst]
+          · have : s.closers[k]? = some .sending := by grind
+            have := h2 k this; grind
+        · intro k hk
+          have : s.closers[k]? = some .unlock := by grind
+          have := h3 k this; grind
+        · intro k hk
+          simp only [if_true, Option.some.injEq] at hk
+          subst hk
+          left; grind
+      · cases hs
+        refine ⟨h1, ?_, ?_, ?_, h5⟩
+        · intro k hk
+          have : s.closers[k]? = some .sending := by grind
+          exact h2 k this
+        · intro k hk
+          have : s.closers[k]? = some .unlock := by grind
+          exact h3 k this
+        · intro k hk
+          have := h4 k hk; grind
+    · cases hs
+  | handshake j =>
+    simp only [hsStep] at hs
+    split at hs
+    · rename_i hc
+      cases hs
+      have hl := (h2 j hc.1).1
+      refine ⟨by simp, ?_, ?_, ?_, by grind⟩
+      · intro k hk
+        have : s.closers[k]? = some .sending ∧ k ≠ j := by grind
+        have := h2 k this.1; grind
+      · intro k hk
+        by_cases hkj : j = k
+        · subst hkj; exact hl
+        · have : s.closers[k]? = some .unlock := by grind
+          exact h3 k this
+      · intro k hk
+        have : k = j := by grind
+        subst this; right; grind
+    · cases hs
+  | closeUnlock j =>
+    simp only [hsStep] at hs
+    split at hs
+    · rename_i hc
+      cases hs
+      have hl := h3 j hc
+      refine ⟨h1, ?_, ?_, by simp, h5⟩
+      · intro k hk
+        have : s.closers[k]? = some .sending ∧ k ≠ j := by grind
+        have := h2 k this.1; grind
+      · intro k hk
+        have : s.closers[k]? = some .unlock ∧ k ≠ j := by grind
+        have := h3 k this.1; grind
+    · cases hs
+  | closeRest j =>
+    simp only [hsStep] at hs
+    split at hs
+    · rename_i hc
+      cases hs
+      refine ⟨h1, ?_, ?_, ?_, h5⟩
+      · intro k hk
+        have : s.closers[k]? = some .sending := by grind
+        exact h2 k this
+      · intro k hk
+        have : s.closers[k]? = some .unlock := by grind
+        exact h3 k this
+      · intro k hk
+        have := h4 k hk; grind
+    · cases hs
+
+theorem hs_inv_run (s : Hs) (h : HsInv s) (acts : List HsAct) : HsInv (hsRun true s acts) := by
+  induction acts generalizing s with
+  | nil => exact h
+  | cons a as ih =>
+    simp only [hsRun]
+    cases hs : hsStep true s a with
+    | none => exact ih s h
+    | some s' => exact ih s' (hs_inv_step h hs)
+
+theorem sum_map_set_gen {α : Type} (f : α → Nat) {l : List α} {i : Nat} {a b : α} (h : l[i]? = some a) :
+    ((l.set i b).map f).sum + f a = (l.map f).sum + f b := by
+  induction l generalizing i with
+  | nil => simp at h
+  | cons x xs ih =>
+    cases i with
+    | zero =>
+      simp only [List.getElem?_cons_zero, Option.some.injEq] at h
+      subst h
+      simp only [List.set_cons_zero, List.map_cons, List.sum_cons]
+      omega
+    | succ n =>
+      simp only [List.getElem?_cons_succ] at h
+      have := ih h
+      simp only [List.set_cons_succ, List.map_cons, List.sum_cons]
+      omega
+
+theorem hs_step_measure {held : Bool} {s s' : Hs} {a : HsAct} (hs : hsStep held s a = some s')
+    (ha : a ≠ .closeCall) : hsMeasure s' < hsMeasure s := by
+  cases a with
+  | closeCall => exact absurd rfl ha
+  | startCall =>
+    simp only [hsStep] at hs
+    split at hs
+    · rename_i h; cases hs; simp [hsMeasure, h, StartPc.rank]
+    · cases hs
+  | startFlag =>
+    simp only [hsStep] at hs
+    split at hs
+    · rename_i h; cases hs; simp [hsMeasure, h.1, StartPc.rank]
+    · cases hs
+  | startWait =>
+    simp only [hsStep] at hs
+    split at hs
+    · rename_i h; cases hs; simp [hsMeasure, h, StartPc.rank]
+    · cases hs
+  | closeLock j =>
+    simp only [hsStep] at hs
+    split at hs
+    · rename_i h
+      split at hs
+      · cases hs
+        have := sum_map_set_gen ClPc.rank (b := ClPc.sending) h.1
+        simp only [hsMeasure, ClPc.rank] at this ⊢
+        omega
+      · cases hs
+        have := sum_map_set_gen ClPc.rank (b := ClPc.rest) h.1
+        simp only [hsMeasure, ClPc.rank] at this ⊢
+        omega
+    · cases hs
+  | handshake j =>
+    simp only [hsStep] at hs
+    split at hs
+    · rename_i h
+      cases hs
+      have := sum_map_set_gen ClPc.rank (b := ClPc.unlock) h.1
+      simp only [hsMeasure, ClPc.rank, h.2, StartPc.rank] at this ⊢
+      omega
+    · cases hs
+  | closeUnlock j =>
+    simp only [hsStep] at hs
+    split at hs
+    · rename_i h
+      cases hs
+      have := sum_map_set_gen ClPc.rank (b := ClPc.rest) h
+      simp only [hsMeasure, ClPc.rank] at this ⊢
+      omega
+    · cases hs
+  | closeRest j =>
+    simp only [hsStep] at hs
+    split at hs
+    · rename_i h
+      cases hs
+      have := sum_map_set_gen ClPc.rank (b := ClPc.returned) h
+      simp only [hsMeasure, ClPc.rank] at this ⊢
+      omega
+    · cases hs
+
+/-- **any number of concurrent `Server.Close` calls get past the hand-shake with `Start`, and exactly
+one of them performs it**: for every interleaving of one `Start` and unboundedly many `Close` calls
+(the code as it is: the server's mutex is held from the test of `IsStarted` to its reset),
+(1) no `Close` call is ever stuck: one that waits for the mutex can take it, or its holder — blocked
+in the send — is served by `Start` (which reaches its receive by itself); one that is sending is
+served; (2) every step of `Start` and of a `Close` call uses up `hsMeasure`, which only a new call
+increases; (3) `Start` takes at most one token: the flag is reset under the same mutex, so no second
+call ever sends. -/
+theorem c10_close_handshake_terminates (acts : List HsAct) :
+    let s := hsRun true {} acts
+    (∀ j, s.closers[j]? = some .want →
+      (∃ s', hsStep true s (.closeLock j) = some s') ∨
+      (∃ k, s.lock = some k ∧ ((∃ s', hsStep true s .startWait = some s') ∨
+        (∃ s', hsStep true s (.handshake k) = some s') ∨ (∃ s', hsStep true s (.closeUnlock k) = some s')))) ∧
+    (∀ j, s.closers[j]? = some .sending →
+      (∃ s', hsStep true s .startWait = some s') ∨ (∃ s', hsStep true s (.handshake j) = some s')) ∧
+    (∀ j, s.closers[j]? = some .unlock → ∃ s', hsStep true s (.closeUnlock j) = some s') ∧
+    (∀ j, s.closers[j]? = some .rest → ∃ s', hsStep true s (.closeRest j) = some s') ∧
+    (∀ a s', hsStep true s a = some s' → a ≠ .closeCall → hsMeasure s' < hsMeasure s) ∧
+    s.shutdowns ≤ 1 ∧ (s.shutdowns = 1 ↔ s.start = .returned) ∧
+    (∀ j k : Nat, s.closers[j]? = some ClPc.sending → s.closers[k]? = some ClPc.sending → j = k) := by
+  intro s
+  have ex : ∀ {o : Option Hs}, o.isSome = true → ∃ x, o = some x := fun h => Option.isSome_iff_exists.mp h
+  have hinv : HsInv s := hs_inv_run {} hs_inv_init acts
+  have sending : ∀ j, s.closers[j]? = some .sending →
+      (∃ s', hsStep true s .startWait = some s') ∨ (∃ s', hsStep true s (.handshake j) = some s') := by
+    intro j hj
+    rcases hinv.st (hinv.snd j hj).2 with h | h
+    · left; exact ex (by simp [hsStep, h])
+    · right; exact ex (by simp [hsStep, hj, h])
+  refine ⟨?_, sending, ?_, ?_, fun a s' hs ha => hs_step_measure hs ha, hinv.sh.1, hinv.sh.2, ?_⟩
+  · intro j hj
+    cases hl : s.lock with
+    | none => left; exact ex (by simp only [hsStep, hj, hl, and_self, if_true]; split <;> rfl)
+    | some k =>
+      right
+      refine ⟨k, rfl, ?_⟩
+      rcases hinv.lk k hl with h | h
+      · rcases sending k h with h' | h'
+        · exact .inl h'
+        · exact .inr (.inl h')
+      · exact .inr (.inr (ex (by simp [hsStep, h])))
+  · intro j hj; exact ex (by simp [hsStep, hj])
+  · intro j hj; exact ex (by simp [hsStep, hj])
+  · intro j k hj hk
+    have h1 := (hinv.snd j hj).1
+    have h2 := (hinv.snd k hk).1
+    rw [h1] at h2; exact Option.some.inj h2
+
+/-- the variant that releases the mutex between reading `IsStarted` and sending: two overlapping
+`Close` calls both see the flag set and both send; `Start` takes one token and returns; the second
+call is blocked in its send for ever — no action of the system can serve it -/
+theorem c10_close_handshake_needs_the_lock :
+    let s := hsRun false {} [.startCall, .startFlag, .startWait, .closeCall, .closeCall,
+                             .closeLock 0, .closeLock 1, .handshake 0, .closeUnlock 0, .closeRest 0]
+    s.closers = [.returned, .sending] ∧ s.start = .returned ∧
+    hsStep false s (.handshake 1) = none ∧ hsStep false s .startWait = none ∧
+    hsStep false s .startCall = none ∧ hsStep false s .startFlag = none := by
+  decide
+
+
+/-! ### the listeners -/
+
+def LoopPc.alive : LoopPc → Bool
+  | .accepting | .gotErr | .sendQuit => true
+  | _ => false
+
+/-- what holds of the TCP/TLS listener in every reachable state -/
+structure LnInv (s : Ln) : Prop where
+  /-- `close(t.quit)` happens under the lock, and the lock is only released with a fresh channel -/
+  free  : s.lock = none → s.quitClosed = false
+  hold  : ∀ j : Nat, s.lock = some j → s.stops[j]? = some LnStopPc.waiting ∨ s.stops[j]? = some LnStopPc.finishing
+  held  : ∀ j : Nat, s.stops[j]? = some LnStopPc.waiting ∨ s.stops[j]? = some LnStopPc.finishing → s.lock = some j
+  wait  : ∀ j : Nat, s.stops[j]? = some LnStopPc.waiting → s.loop.alive = true ∧ s.quitClosed = true ∧ s.sockOpen = false
+  alive : s.loop.alive = true → s.listening = true
+  lis   : s.listening = true → s.loop.alive = true ∨ ∃ k : Nat, s.stops[k]? = some LnStopPc.finishing
+  sq    : s.loop = .sendQuit → ∃ k : Nat, s.stops[k]? = some LnStopPc.waiting
+  fin   : ∀ j : Nat, s.stops[j]? = some LnStopPc.finishing → s.loop.alive = false
+  stp   : s.stopped = true → s.closed = true ∧ s.sockOpen = false ∧ s.loop.alive = false ∧ s.listening = false
+  cl    : s.closed = true → s.sockOpen = false
+  lsock : ∀ j : Nat, s.lock = some j → s.sockOpen = false
+
+theorem ln_inv_init : LnInv {} := by
+  refine ⟨by simp, by simp, by simp, by simp, by simp [LoopPc.alive], by simp, by simp, by simp, by simp, by simp, by simp⟩
+
+theorem ln_inv_step {s s' : Ln} {a : LnAct} (h : LnInv s) (hs : lnStep s a = some s') : LnInv s' := by
+  obtain ⟨h1, h2, h3, h4, h5, h6, h7, h8, h9, h10, h11⟩ := h
+  cases a with
+  | listen =>
+    simp only [lnStep] at hs
+    split at hs
+    · rename_i hc
+      have nolock : ∀ k : Nat, ¬ (s.stops[k]? = some LnStopPc.waiting ∨ s.stops[k]? = some LnStopPc.finishing) := by
+        intro k hk; have := h3 k hk; simp [hc.2] at this
+      split at hs
+      · rename_i hcl
+        cases hs
+        refine ⟨h1, h2, h3, ?_, by simp [LoopPc.alive], ?_, by simp, by simp [LoopPc.alive], ?_, h10, h11⟩
+        · intro j hj; exact absurd (.inl hj) (nolock j)
+        · intro hl
+          rcases h6 hl with h | ⟨k, hk⟩
+          · simp [hc.1, LoopPc.alive] at h
+          · exact absurd (.inr hk) (nolock k)
+        · intro hst; have := h9 hst; exact ⟨this.1, this.2.1, by simp [LoopPc.alive], this.2.2.2⟩
+      · rename_i hcl
+        cases hs
+        refine ⟨h1, h2, h3, ?_, by simp, ?_, by simp, ?_, ?_, h10, h11⟩
+        · intro j hj; exact absurd (.inl hj) (nolock j)
+        · intro _; left; simp [LoopPc.alive]
+        · intro j hj; exact absurd (.inr hj) (nolock j)
+        · intro hst; have := (h9 hst).1; exact absurd this hcl
+    · cases hs
+  | accept =>
+    simp only [lnStep] at hs
+    split at hs
+    · cases hs; exact ⟨h1, h2, h3, h4, h5, h6, h7, h8, h9, h10, h11⟩
+    · cases hs
+  | acceptErr =>
+    simp only [lnStep] at hs
+    split at hs
+    · rename_i hc
+      cases hs
+      refine ⟨h1, h2, h3, ?_, ?_, ?_, by simp, ?_, ?_, h10, h11⟩
+      · intro j hj; have := h4 j hj; exact ⟨by simp [LoopPc.alive], this.2⟩
+      · intro _; exact h5 (by simp [hc, LoopPc.alive])
+      · intro _; left; simp [LoopPc.alive]
+      · intro j hj; have := h8 j hj; simp [hc, LoopPc.alive] at this
+      · intro hst; have := (h9 hst).2.2; simp [hc, LoopPc.alive] at this
+    · cases hs
+  | checkQuit =>
+    simp only [lnStep] at hs
+    split at hs
+    · rename_i hc
+      cases hs
+      have hal : s.loop.alive = true := by simp [hc, LoopPc.alive]
+      refine ⟨h1, h2, h3, ?_, ?_, ?_, ?_, ?_, ?_, h10, h11⟩
+      · intro j hj; have := h4 j hj; exact ⟨by split <;> simp [LoopPc.alive], this.2⟩
+      · intro _; exact h5 hal
+      · intro _; left; split <;> simp [LoopPc.alive]
+      · intro hq
+        cases hqc : s.quitClosed with
+        | false => simp [hqc] at hq
+        | true =>
+          -- the lock is held (the channel is closed), the loop is alive: its holder waits
+          cases hl : s.lock with
+          | none => have := h1 hl; simp [hqc] at this
+          | some k =>
+            rcases h2 k hl with hk | hk
+            · exact ⟨k, hk⟩
+            · have := h8 k hk; simp [hal] at this
+      · intro j hj; have := h8 j hj; simp [hal] at this
+      · intro hst; have := (h9 hst).2.2; simp [hal] at this
+    · cases hs
+  | stopCall =>
+    simp only [lnStep] at hs
+    cases hs
+    have app : ∀ (j : Nat) (p : LnStopPc), p ≠ .want → (s.stops ++ [LnStopPc.want])[j]? = some p → s.stops[j]? = some p := by
+      intro j p hp hj; grind
+    refine ⟨h1, ?_, ?_, ?_, h5, ?_, ?_, ?_, h9, h10, h11⟩
+    · intro j hj; have := h2 j hj; grind
+    · intro j hj
+      rcases hj with hj | hj
+      · exact h3 j (.inl (app j _ (by simp) hj))
+      · exact h3 j (.inr (app j _ (by simp) hj))
+    · intro j hj; exact h4 j (app j _ (by simp) hj)
+    · intro hl; rcases h6 hl with h | ⟨k, hk⟩
+      · exact .inl h
+      · right; exact ⟨k, by grind⟩
+    · intro hq; obtain ⟨k, hk⟩ := h7 hq; exact ⟨k, by grind⟩
+    · intro j hj; exact h8 j (app j _ (by simp) hj)
+  | stopLock j =>
+    simp only [lnStep] at hs
+    split at hs
+    · rename_i hc
+      cases hs
+      have hnone : ∀ k : Nat, ¬ (s.stops[k]? = some LnStopPc.waiting ∨ s.stops[k]? = some LnStopPc.finishing) := by
+        intro k hk; have := h3 k hk; simp [hc.2] at this
+      have hlt : j < s.stops.length := by
+        have := hc.1; grind
+      refine ⟨by simp, ?_, ?_, ?_, h5, ?_, ?_, ?_, ?_, ?_, ?_⟩
+      · intro k hk
+        simp only [Option.some.injEq] at hk
+        subst hk
+        rw [List.getElem?_set_self hlt]
+        cases s.listening <;> simp
+      · intro k hk
+        by_cases hkj : j = k
+        · subst hkj; rfl
+        · rw [List.getElem?_set_ne hkj] at hk
+          exact absurd hk (hnone k)
+      · intro k hk
+        by_cases hkj : j = k
+        · subst hkj
+          rw [List.getElem?_set_self hlt] at hk
+          cases hl : s.listening with
+          | false => simp [hl] at hk
+          | true =>
+            rcases h6 hl with h | ⟨m, hm⟩
+            · exact ⟨h, rfl, rfl⟩
+            · exact absurd (.inr hm) (hnone m)
+        · rw [List.getElem?_set_ne hkj] at hk
+          exact absurd (.inl hk) (hnone k)
+      · intro hl
+        rcases h6 hl with h | ⟨m, hm⟩
+        · exact .inl h
+        · exact absurd (.inr hm) (hnone m)
+      · intro hq; obtain ⟨k, hk⟩ := h7 hq; exact absurd (.inl hk) (hnone k)
+      · intro k hk
+        by_cases hkj : j = k
+        · subst hkj
+          rw [List.getElem?_set_self hlt] at hk
+          cases hl : s.listening with
+          | true => simp [hl] at hk
+          | false =>
+            cases hal : s.loop.alive with
+            | false => rfl
+            | true => have := h5 hal; simp [hl] at this
+        · rw [List.getElem?_set_ne hkj] at hk
+          exact absurd (.inr hk) (hnone k)
+      · intro hst; have := h9 hst; exact ⟨this.1, rfl, this.2.2⟩
+      · intro _; rfl
+      · intro _ _; rfl
+    · cases hs
+  | quitShake j =>
+    simp only [lnStep] at hs
+    split at hs
+    · rename_i hc
+      cases hs
+      have hlk := h3 j (.inl hc.1)
+      have hlt : j < s.stops.length := by have := hc.1; grind
+      have uniq : ∀ k : Nat, s.stops[k]? = some LnStopPc.waiting ∨ s.stops[k]? = some LnStopPc.finishing → k = j := by
+        intro k hk; have := h3 k hk; rw [hlk] at this; exact (Option.some.inj this).symm
+      refine ⟨h1, ?_, ?_, ?_, by simp [LoopPc.alive], ?_, by simp, by simp [LoopPc.alive], ?_, h10, h11⟩
+      · intro k hk
+        have : k = j := by rw [hlk] at hk; exact (Option.some.inj hk).symm
+        subst this; right; exact List.getElem?_set_self hlt
+      · intro k hk
+        by_cases hkj : j = k
+        · subst hkj; exact hlk
+        · rw [List.getElem?_set_ne hkj] at hk; exact h3 k hk
+      · intro k hk
+        by_cases hkj : j = k
+        · subst hkj; rw [List.getElem?_set_self hlt] at hk; simp at hk
+        · rw [List.getElem?_set_ne hkj] at hk; exact absurd (uniq k (.inl hk)) (fun e => hkj e.symm)
+      · intro _; right; exact ⟨j, List.getElem?_set_self hlt⟩
+      · intro hst; have := (h9 hst).2.2; simp [hc.2, LoopPc.alive] at this
+    · cases hs
+  | stopFinish j =>
+    simp only [lnStep] at hs
+    split at hs
+    · rename_i hc
+      cases hs
+      have hlk := h3 j (.inr hc)
+      have hlt : j < s.stops.length := by grind
+      have uniq : ∀ k : Nat, s.stops[k]? = some LnStopPc.waiting ∨ s.stops[k]? = some LnStopPc.finishing → k = j := by
+        intro k hk; have := h3 k hk; rw [hlk] at this; exact (Option.some.inj this).symm
+      have hdead := h8 j hc
+      have hsock : s.sockOpen = false := h11 j hlk
+      refine ⟨by simp, by simp, ?_, ?_, ?_, by simp, ?_, ?_, ?_, ?_, by simp⟩
+      · intro k hk
+        by_cases hkj : j = k
+        · subst hkj; rw [List.getElem?_set_self hlt] at hk; simp at hk
+        · rw [List.getElem?_set_ne hkj] at hk; exact absurd (uniq k hk) (fun e => hkj e.symm)
+      · intro k hk
+        by_cases hkj : j = k
+        · subst hkj; rw [List.getElem?_set_self hlt] at hk; simp at hk
+        · rw [List.getElem?_set_ne hkj] at hk; exact absurd (uniq k (.inl hk)) (fun e => hkj e.symm)
+      · intro hal; simp [hdead] at hal
+      · intro hq
+        have hq' : s.loop = .sendQuit := hq
+        rw [hq'] at hdead; simp [LoopPc.alive] at hdead
+      · intro k hk
+        by_cases hkj : j = k
+        · subst hkj; rw [List.getElem?_set_self hlt] at hk; simp at hk
+        · rw [List.getElem?_set_ne hkj] at hk; exact absurd (uniq k (.inr hk)) (fun e => hkj e.symm)
+      · intro _; exact ⟨rfl, hsock, hdead, rfl⟩
+      · intro _; exact hsock
+    · cases hs
+
+theorem ln_inv_run (s : Ln) (h : LnInv s) (acts : List LnAct) : LnInv (lnRun s acts) := by
+  induction acts generalizing s with
+  | nil => exact h
+  | cons a as ih =>
+    simp only [lnRun]
+    cases hs : lnStep s a with
+    | none => exact ih s h
+    | some s' => exact ih s' (ln_inv_step h hs)
+
+theorem ln_stopped_step {s s' : Ln} {a : LnAct} (h : LnInv s) (hst : s.stopped = true)
+    (hs : lnStep s a = some s') : s'.stopped = true ∧ s'.handed = s.handed := by
+  have h9 := h.stp hst
+  cases a with
+  | accept =>
+    simp only [lnStep] at hs
+    split at hs
+    · rename_i hc; simp [h9.2.1] at hc
+    · cases hs
+  | listen =>
+    simp only [lnStep] at hs
+    split at hs
+    · split at hs <;> cases hs <;> exact ⟨hst, rfl⟩
+    · cases hs
+  | acceptErr => simp only [lnStep] at hs; split at hs <;> cases hs; exact ⟨hst, rfl⟩
+  | checkQuit => simp only [lnStep] at hs; split at hs <;> cases hs; exact ⟨hst, rfl⟩
+  | stopCall => simp only [lnStep] at hs; cases hs; exact ⟨hst, rfl⟩
+  | stopLock j => simp only [lnStep] at hs; split at hs <;> cases hs; exact ⟨hst, rfl⟩
+  | quitShake j => simp only [lnStep] at hs; split at hs <;> cases hs; exact ⟨hst, rfl⟩
+  | stopFinish j => simp only [lnStep] at hs; split at hs <;> cases hs; exact ⟨rfl, rfl⟩
+
+/-- a `Stop` call that holds the lock can go on, or the accept loop it waits for can, and each step
+of the loop brings the loop closer to its end -/
+def LnHolderMoves (s : Ln) (k : Nat) : Prop :=
+  (∃ s', lnStep s (.quitShake k) = some s') ∨ (∃ s', lnStep s (.stopFinish k) = some s') ∨
+  (∃ s', lnStep s .acceptErr = some s' ∧ s'.loop.rank < s.loop.rank) ∨
+  (∃ s', lnStep s .checkQuit = some s' ∧ s'.loop.rank < s.loop.rank)
+
+/-- **`TCPListener.Stop` terminates, under any interleaving with `Listen`, incoming connections and
+further `Stop` calls**: in every reachable state (1) a `Stop` call that wants the lock can take it, or
+the call that holds it can move; (2) a call that waits for the accept loop is answered: the loop is
+alive, the socket and `quit` are closed, so `Accept` fails, the `select` sees `quit` closed, and the
+loop sends on `quitListener` — three steps, each enabled, after which the hand-shake is; (3) a call
+past the hand-shake finishes; (4) `close(t.quit)` never meets a closed channel (it would panic):
+whenever the lock is free the channel is open. -/
+theorem c10_listener_stop_terminates (acts : List LnAct) :
+    let s := lnRun {} acts
+    (∀ j : Nat, s.stops[j]? = some LnStopPc.want →
+      (∃ s', lnStep s (.stopLock j) = some s') ∨ (∃ k, s.lock = some k ∧ LnHolderMoves s k)) ∧
+    (∀ j : Nat, s.stops[j]? = some LnStopPc.waiting → LnHolderMoves s j) ∧
+    (∀ j : Nat, s.stops[j]? = some LnStopPc.finishing → ∃ s', lnStep s (.stopFinish j) = some s') ∧
+    (∀ j s', lnStep s (.stopLock j) = some s' → s.quitClosed = false) := by
+  intro s
+  have hinv : LnInv s := ln_inv_run {} ln_inv_init acts
+  have ex : ∀ {o : Option Ln}, o.isSome = true → ∃ x, o = some x := fun h => Option.isSome_iff_exists.mp h
+  have waiting : ∀ j : Nat, s.stops[j]? = some LnStopPc.waiting → LnHolderMoves s j := by
+    intro j hj
+    obtain ⟨hal, hq, _⟩ := hinv.wait j hj
+    cases hl : s.loop with
+    | none => simp [hl, LoopPc.alive] at hal
+    | returned => simp [hl, LoopPc.alive] at hal
+    | accepting =>
+      right; right; left
+      exact ⟨{ s with loop := .gotErr }, by simp [lnStep, hl], by simp [hl, LoopPc.rank]⟩
+    | gotErr =>
+      right; right; right
+      exact ⟨{ s with loop := .sendQuit }, by simp [lnStep, hl, hq], by simp [hl, LoopPc.rank]⟩
+    | sendQuit => left; exact ex (by simp [lnStep, hj, hl])
+  have finishing : ∀ j : Nat, s.stops[j]? = some LnStopPc.finishing → ∃ s', lnStep s (.stopFinish j) = some s' := by
+    intro j hj; exact ex (by simp [lnStep, hj])
+  refine ⟨?_, waiting, finishing, ?_⟩
+  · intro j hj
+    cases hl : s.lock with
+    | none => left; exact ex (by simp [lnStep, hj, hl])
+    | some k =>
+      right
+      refine ⟨k, rfl, ?_⟩
+      rcases hinv.hold k hl with h | h
+      · exact waiting k h
+      · exact .inr (.inl (finishing k h))
+  · intro j s' hs
+    simp only [lnStep] at hs
+    split at hs
+    · rename_i hc; exact hinv.free hc.2
+    · cases hs
+
+/-- **after `Stop` the listener hands out nothing**: once a `Stop` call has returned the socket is
+closed, the accept loop has ended, `listening` is false and `closed` is true; `accept` is disabled and
+stays so whatever follows (late `Listen`, further `Stop`s): the number of connections handed to the
+callback never moves again -/
+theorem c10_listener_no_accept_after_stop (acts : List LnAct) :
+    let s := lnRun {} acts
+    s.stopped = true →
+      s.sockOpen = false ∧ s.listening = false ∧ s.closed = true ∧ s.loop.alive = false ∧
+      lnStep s .accept = none ∧
+      (∀ more, (lnRun s more).handed = s.handed ∧ (lnRun s more).stopped = true) := by
+  intro s hst
+  have hinv : LnInv s := ln_inv_run {} ln_inv_init acts
+  have h9 := hinv.stp hst
+  refine ⟨h9.2.1, h9.2.2.2, h9.1, h9.2.2.1, by simp [lnStep, h9.2.1], ?_⟩
+  intro more
+  have key : ∀ (t : Ln), LnInv t → t.stopped = true →
+      (lnRun t more).handed = t.handed ∧ (lnRun t more).stopped = true := by
+    induction more with
+    | nil => intro t _ ht; exact ⟨rfl, ht⟩
+    | cons a as ih =>
+      intro t hi ht
+      simp only [lnRun]
+      cases hs : lnStep t a with
+      | none => exact ih t hi ht
+      | some t' =>
+        obtain ⟨h1, h2⟩ := ln_stopped_step hi ht hs
+        obtain ⟨h3, h4⟩ := ih t' (ln_inv_step hi hs) h1
+        exact ⟨h3.trans h2, h4⟩
+  exact key s hinv hst
+
+/-- **`Stop` is idempotent**: after a `Stop` has returned, a further one (finding the lock free)
+takes the lock, closes the fresh `quit` channel and the already closed socket, does not wait — nobody
+listens — and leaves every field as it was -/
+theorem c10_listener_stop_idempotent (acts : List LnAct) :
+    let s := lnRun {} acts
+    s.stopped = true → s.lock = none →
+      lnRun s [.stopCall, .stopLock s.stops.length, .stopFinish s.stops.length]
+        = { s with stops := s.stops ++ [.returned] } := by
+  intro s hst hl
+  have hinv : LnInv s := ln_inv_run {} ln_inv_init acts
+  have h9 := hinv.stp hst
+  have hq := hinv.free hl
+  obtain ⟨lock, listening, closed, quitClosed, sockOpen, loop, stops, handed, stopped⟩ := s
+  simp only at hst hl h9 hq
+  obtain ⟨hc, hso, _, hli⟩ := h9
+  subst hst hl hc hso hli hq
+  have e1 : (stops ++ [LnStopPc.want])[stops.length]? = some .want := by simp
+  have e2 : ((stops ++ [LnStopPc.want]).set stops.length LnStopPc.finishing)[stops.length]? = some .finishing := by simp
+  simp only [lnRun, lnStep, e1, and_self, if_true, Bool.false_eq_true, if_false, e2]
+  simp
+
+/-! the in-memory listener: every operation is one critical section -/
+
+theorem ll_inv_run (s : Ll) (h : s.listening = false → s.blocked = 0) (acts : List LlAct) :
+    (llRun s acts).listening = false → (llRun s acts).blocked = 0 := by
+  induction acts generalizing s with
+  | nil => exact h
+  | cons a as ih =>
+    simp only [llRun]
+    apply ih
+    cases a <;> simp only [llStep] <;> split <;> simp_all
+
+/-- **the in-memory listener**: in every reachable state `Stop` ends with nobody listening and no
+`Listen` call blocked, a further `Stop` changes nothing, and no connection is handed to the callback
+any more -/
+theorem c10_local_listener_stop (acts : List LlAct) :
+    let t := llStep (llRun {} acts) .stop
+    t.listening = false ∧ t.blocked = 0 ∧ llStep t .stop = t ∧ llStep t .connect = t := by
+  intro t
+  have hinv := ll_inv_run {} (by simp) acts
+  have hl : t.listening = false := by
+    simp only [t, llStep]; split <;> simp_all
+  have hb : t.blocked = 0 := by
+    simp only [t, llStep]; split
+    · rfl
+    · rename_i h; exact hinv (by simpa using h)
+  exact ⟨hl, hb, by simp [llStep, hl], by simp [llStep, hl]⟩
+
 /-! ### non-vacuity -/
 
 /-- a schedule with traffic: one outgoing and one incoming connection, messages dispatched, then
@@ -855,6 +1515,26 @@ example :
 /-- the tree store: two cleaners, one timer fires while `Close` holds the lock — it still ends -/
 example : (tsRun true {} [.arm, .arm, .fire 0, .lock, .unlock, .cleanup 0, .cancel 1, .wait]).close = .returned := by
   decide
+/-- the hand-shake with traffic: `Start` is waiting, three `Close` calls overlap; the first to take the
+mutex sends, `Start` returns, the others find the flag reset; all return, one shutdown -/
+example :
+    let s := hsRun true {} [.startCall, .startFlag, .closeCall, .closeCall, .closeLock 1, .closeLock 0,
+      .handshake 1, .startWait, .closeCall, .closeLock 2, .handshake 1, .closeLock 0, .closeUnlock 1,
+      .closeLock 0, .closeLock 2, .closeRest 0, .closeRest 1, .closeRest 2]
+    s.closers = [.returned, .returned, .returned] ∧ s.shutdowns = 1 ∧ s.start = .returned ∧ s.lock = none := by
+  decide
+
+/-- the listener: a connection is accepted, two `Stop`s overlap with it, the loop leaves through the
+hand-shake, the second `Stop` does not wait; a late `Listen` returns at once -/
+example :
+    let s := lnRun {} [.listen, .accept, .stopCall, .stopCall, .stopLock 1, .accept, .stopLock 0, .acceptErr,
+      .checkQuit, .quitShake 1, .stopFinish 1, .stopLock 0, .stopFinish 0, .accept]
+    s.stops = [.returned, .returned] ∧ s.handed = 1 ∧ s.loop = .returned ∧ s.listening = false ∧
+    s.closed = true ∧ s.quitClosed = false ∧ s.lock = none := by
+  decide
+
+example : (lnRun {} [.stopCall, .stopLock 0, .stopFinish 0, .listen]).loop = .returned := by decide
+
 
 /-! ### the code regions the model stands for
 Regenerated from /repo's source on every run (`harness/cmd/astfacts` → `OnetVerif/Shapes.lean`): the
